@@ -136,7 +136,7 @@ impl<'a, 'b> Generator<'a, 'b> {
                     "__BLOB{{ {} }}",
                     fields
                         .iter()
-                        .map(|(f, v)| format!("{} = {}", f, self.expand(v)))
+                        .map(|(f, v)| format!("[\"{}\"] = {}", f, self.expand(v)))
                         .collect::<Vec<_>>()
                         .join(", ")
                 ),
@@ -234,7 +234,8 @@ impl<'a, 'b> Generator<'a, 'b> {
                     write!(self.out, "__CRASH(\"{}\")()", msg);
                 }
 
-                IR::Access(t, a, f) => iis!(self, t, "{}.{}", self.expand(a), f),
+                // A field can have a name that is a keyword in Lua (`until`, `local`, ...).
+                IR::Access(t, a, f) => iis!(self, t, "{}[\"{}\"]", self.expand(a), f),
 
                 IR::Copy(t, a) => {
                     if self.usage_count.get(t).unwrap_or(&0) > &0 {
@@ -264,7 +265,7 @@ impl<'a, 'b> Generator<'a, 'b> {
                     if self.usage_count.get(t).unwrap_or(&0) > &0 {
                         let t = self.expand(t);
                         let c = self.expand(c);
-                        write!(self.out, "{}.{} = {}", t, f, c);
+                        write!(self.out, "{}[\"{}\"] = {}", t, f, c);
                     }
                 }
 
